@@ -202,6 +202,93 @@ def auto_mutants(mod, prop, base: Ctx, budget_s: float):
     return res
 
 
+def _one_seed(job):
+    """Worker: apply one kept seeded change (a patch written by an independent agent, see DESIGN section 12) to a scratch copy of the
+    files it touches, and run this property's rules on the result through the overlay.  Returns (id, state, first key / reason)."""
+    import shutil
+    import subprocess
+    import tempfile
+
+    from .model import repo_root
+    prop, sid, patch, base_bad = job
+    root = repo_root()
+    tmp = tempfile.mkdtemp(prefix="aspire_sa_seed_")
+    try:
+        files = []
+        for line in open(patch, encoding="utf-8", errors="replace"):
+            if line.startswith("+++ "):
+                f = line[4:].strip().split("\t")[0]
+                f = f[2:] if f.startswith(("a/", "b/")) else f
+                if f != "/dev/null" and f not in files:
+                    files.append(f)
+        for f in files:
+            src = os.path.join(root, f)
+            dst = os.path.join(tmp, f)
+            os.makedirs(os.path.dirname(dst), exist_ok=True)
+            if os.path.exists(src):
+                shutil.copy(src, dst)
+        r = subprocess.run(["patch", "-p1", "-s", "-f", "-i", patch], cwd=tmp, capture_output=True, text=True)
+        if r.returncode != 0:
+            return (sid, "inapplicable", "patch does not apply to the current tree")
+        overlay = {}
+        for f in files:
+            pth = os.path.join(tmp, f)
+            if os.path.exists(pth) and f.endswith(".py"):
+                overlay[f] = open(pth, encoding="utf-8").read()
+        mod = load_rules(prop)
+        try:
+            v = run_rules(mod, prop, "quick", Repo(overlay=overlay))
+        except AnalysisError as e:
+            return (sid, "undecided", str(e)[:160])
+        except Exception as e:  # noqa: BLE001
+            return (sid, "undecided", f"internal: {type(e).__name__}: {e}"[:160])
+        ref = [f.key for f in v.findings if f.verdict == REFUTED and f.key not in base_bad]
+        unk = [f.key for f in v.findings if f.verdict == UNKNOWN and f.key not in base_bad]
+        if ref:
+            return (sid, "refuted", ref[0])
+        return (sid, "undecided" if unk else "silent", unk[0] if unk else "")
+    finally:
+        shutil.rmtree(tmp, ignore_errors=True)
+
+
+def seed_corpus(prop, base: Ctx, budget_s: float):
+    """Thorough tier: every kept seeded change of this property (/verif/seeded/<prop>-*/patch.diff) must be REFUTED by this
+    property's rules when applied to the current tree.  A change that is no longer reported means the checker lost sensitivity
+    (ANALYSIS-ERROR, never a property verdict); one whose patch no longer applies is counted inapplicable."""
+    import concurrent.futures as cf
+    import multiprocessing as mp
+
+    here = os.path.dirname(os.path.dirname(os.path.abspath(__file__)))
+    sdir = os.path.join(here, "seeded")
+    base_bad = {f.key for f in base.findings if f.verdict in (REFUTED, UNKNOWN)}
+    jobs = []
+    if os.path.isdir(sdir):
+        for sid in sorted(os.listdir(sdir)):
+            patch = os.path.join(sdir, sid, "patch.diff")
+            if sid.startswith(prop + "-") and os.path.isfile(patch):
+                jobs.append((prop, sid, patch, base_bad))
+    res = {"kept_changes": len(jobs), "refuted": 0, "inapplicable": 0, "missed": [], "not_run": 0, "by": {}}
+    if not jobs:
+        return res
+    with cf.ProcessPoolExecutor(max_workers=min(16, os.cpu_count() or 4, len(jobs)), mp_context=mp.get_context("fork")) as ex:
+        futs = [ex.submit(_one_seed, j) for j in jobs]
+        done, _pending = cf.wait(futs, timeout=budget_s)
+        for f in futs:
+            if f not in done:
+                f.cancel()
+                res["not_run"] += 1
+                continue
+            sid, state, key = f.result()
+            if state == "refuted":
+                res["refuted"] += 1
+                res["by"][sid] = key
+            elif state == "inapplicable":
+                res["inapplicable"] += 1
+            else:
+                res["missed"].append(f"seeded change {sid} is no longer reported by {prop} ({state}{': ' + key if key else ''})")
+    return res
+
+
 def cmd_check(prop: str, tier: str, no_controls: bool = False) -> int:
     t0 = time.time()
     try:
@@ -222,6 +309,13 @@ def cmd_check(prop: str, tier: str, no_controls: bool = False) -> int:
             ctx.analysed["auto_mutants"] = {k: (v if k != "silent_list" else v[:200]) for k, v in am.items()}
             print(f"   auto-mutants of the anchored functions: {am['generated']} generated, {am['refuted']} refuted, "
                   f"{am['undecided']} undecided, {am['silent']} silent (equivalent / outside the property / rule gap; listed in evidence)")
+        if tier == "thorough" and not no_controls:
+            sc = seed_corpus(prop, ctx, 600.0)
+            ctx.analysed["seeded_corpus"] = sc
+            print(f"   kept seeded changes of {prop}: {sc['kept_changes']} applied to the current tree, {sc['refuted']} refuted, "
+                  f"{sc['inapplicable']} inapplicable, {len(sc['missed'])} no longer reported")
+            if controls is not None:
+                controls.setdefault("missed", []).extend(sc["missed"])
         meta["cmd"] = f"./sa check {prop} --tier {tier}"
         meta.setdefault("trusted_base", [
             "CPython ast parser", "aspire_sa engine (model, evaluator/GVN, CFG, rule tables)",
